@@ -71,6 +71,7 @@ def chain_configs(tier, deep=False):
         tr = env_rotate()
         out.append(kdriver.Config("chain-N3", 3, [], tr[0], 1, edited=True))
         out.append(kdriver.Config("chain-N14-new", 14, "new", tr[1][:2], 1, edited=True))
+        out.append(kdriver.Config("chain-N4-pre2", 4, [kdriver.known_record(tr[2][0], 0), kdriver.known_record(tr[2][1], 1)], tr[2], 1))
         if tier == "thorough":
             out.append(kdriver.Config("chain-N4-opaque", 4, [kdriver.opaque_record(1)], tr[2], 1, junk=True))
     return out
